@@ -479,7 +479,10 @@ fn run_reuse(ctx: &Ctx, which: u8) -> Acc {
                         let at = ext.rec.events.iter().zip(&extf.rec.events).position(|(x, y)| x != y).unwrap_or(ext.rec.events.len().min(extf.rec.events.len()));
                         v.push(("notifications-differ-on-reused-instance".into(), format!("{} notifications on the reused instance, {} on a fresh one; first difference at #{at}: {:?} vs {:?}", ext.rec.events.len(), extf.rec.events.len(), ext.rec.events.get(at), extf.rec.events.get(at))));
                     }
-                    let _ = &of;
+                    // and the result itself: class, gas, output, logs, touched accounts
+                    if which == 29 && outcome_proj(&o) != outcome_proj(&of) {
+                        v.push(("result-differs-on-reused-instance".into(), format!("reused instance: {:?} {} gas {} refund {} logs {}; fresh instance: {:?} {} gas {} refund {} logs {}", o.class, o.reason, o.gas_used, o.gas_refunded, o.logs.len(), of.class, of.reason, of.gas_used, of.gas_refunded, of.logs.len())));
+                    }
                     a.distinct(&("reuse", s, i, j, f, &o.class, ext.rec.events.len()));
                     a.outcome(&format!("reuse:{}", if f.is_some() { "after-fault" } else { "after-complete" }));
                     for (k, m) in v {
@@ -492,16 +495,33 @@ fn run_reuse(ctx: &Ctx, which: u8) -> Acc {
         .collect();
     merge_all(accs)
 }
+fn outcome_proj(o: &Outcome) -> (Class, String, u64, u64, Bytes, Vec<Log>, Vec<(Address, U256, u64, Vec<(U256, U256)>)>) {
+    let mut st: Vec<(Address, U256, u64, Vec<(U256, U256)>)> = o
+        .state
+        .iter()
+        .filter(|(_, a)| a.is_touched())
+        .map(|(a, acc)| {
+            let mut sl: Vec<(U256, U256)> = acc.storage.iter().map(|(k, s)| (*k, s.present_value)).collect();
+            sl.sort();
+            (*a, acc.info.balance, acc.info.nonce, sl)
+        })
+        .collect();
+    st.sort();
+    (o.class.clone(), o.reason.clone(), o.gas_used, o.gas_refunded, o.output.clone(), o.logs.clone(), st)
+}
 fn replay_reuse(case: &Value, which: u8) -> Option<Vec<Violation>> {
     let r = case.get("reuse")?;
     let c1: TxCase = serde_json::from_value(r["c1"].clone()).ok()?;
     let c2: TxCase = serde_json::from_value(r["c2"].clone()).ok()?;
     let f = r["fail_at"].as_u64();
     let (o, ext, _) = exec_reused(&c1, &c2, f, false);
-    let (_, extf, _) = exec_reused(&c1, &c2, None, true);
+    let (of, extf, _) = exec_reused(&c1, &c2, None, true);
     let mut v = if which == 29 { check_balanced(&o, &ext) } else { check_selfdestruct(&o, &ext) };
     if ext.rec.events != extf.rec.events {
         v.push(("notifications-differ-on-reused-instance".into(), format!("{} notifications on the reused instance, {} on a fresh one", ext.rec.events.len(), extf.rec.events.len())));
+    }
+    if which == 29 && outcome_proj(&o) != outcome_proj(&of) {
+        v.push(("result-differs-on-reused-instance".into(), format!("reused instance: {:?} {} gas {}; fresh instance: {:?} {} gas {}", o.class, o.reason, o.gas_used, of.class, of.reason, of.gas_used)));
     }
     Some(v.into_iter().map(|(k, m)| Violation { key: k, msg: m, case: case.clone() }).collect())
 }
